@@ -177,7 +177,7 @@ class SgzSpec:
     # ---- headers
     def owners(self):
         """Field codes that own a footer array, in table (= footer) order."""
-        return [r[0] for r in self.table if r[1] == 0 and r[2] == r[0]]
+        return [r[0] for r in self.table if r[0] in FIELD_WIDTH and r[1] == 0 and r[2] == r[0]]
 
     def array(self, k):
         off = self.footer_start + k * self.stride
@@ -193,8 +193,10 @@ class SgzSpec:
         """dict field code -> int (constant) or ndarray over grid positions."""
         owners = self.owners()
         arrays = {code: self.array(k) for k, code in enumerate(owners)}
-        cols = {}
+        cols = {f: 0 for f in FIELDS}   # fields the table does not name (v0.0.x: empty table) are zero
         for code, const, dup in self.table:
+            if code not in FIELD_WIDTH:
+                continue
             if const != 0 or dup == 0:
                 cols[code] = const
             elif dup in arrays:
